@@ -26,7 +26,7 @@ ASSUMPTIONS = [
     "non-termination is approximated by a 10 s wall-clock guard per byte string (normal decode time << 1 ms), confirmed with 30 s before it is reported",
     "truncation clause only for descriptions without objects that the end of the PDU may terminate (MIN-MAX-LENGTH values, end-of-pdu / end-marker fields); 'value-carrying' = bits claimed by a parameter in the reference's used mask",
 ]
-MUST_HIT = ["tail-default-value", "truncation-clause:announced-extent", "truncation-inside-field-item", "layer-case", "prefix", "mutation", "short", "random", "overlong", "entry:obj", "entry:layer", "entry:service",
+MUST_HIT = ["tail-reserved", "sfield-dynamic-items", "tail-default-value", "truncation-clause:announced-extent", "truncation-inside-field-item", "layer-case", "prefix", "mutation", "short", "random", "overlong", "entry:obj", "entry:layer", "entry:service",
             "entry:decode_response", "regime:error", "regime:default", "outcome:DecodeError", "outcome:returned",
             "truncation-clause", "somersault"]
 DYNAMIC = {"dct:minmax", "dct:leading", "dct:paramlen", "dlfield", "eopf", "mux", "emfield", "table", "envdata"}
@@ -170,8 +170,9 @@ def eval_case(case, res: core.ShardResult | None = None, kf=None, budget: int = 
     for kind, data in strings:
         for regime in ("default", "error"):
             cls = {kind, "regime:" + regime}
-            if "tail-default-value" in feats:
-                cls.add("tail-default-value")
+            for ft in ("tail-default-value", "tail-reserved", "sfield-dynamic-items"):
+                if ft in feats:
+                    cls.add(ft)
             if lv is not None and len(data) < lv and (kind == "prefix" or not (feats & DYNAMIC)):
                 cls.add("truncation-clause")
                 if feats & DYNAMIC:
@@ -455,8 +456,18 @@ def case_strategy():
 
     @st.composite
     def s(draw):
-        c = draw(gen.message_case(opts={"table_struct_first": True, "texttable_pct": 30}))
-        if not (set(c["features"]) & (DYNAMIC | {"nrc", "table-struct-listed-first"})) and draw(st.integers(0, 9)) < 3:
+        focus = draw(st.sampled_from([None, None, None, "sfield", "sfield", "dlfield", "mux", "eopf", "emfield"]))
+        c = draw(gen.message_case(opts={"table_struct_first": True, "texttable_pct": 30, "focus": focus}))
+        static_msg = not (set(c["features"]) & (DYNAMIC | {"nrc", "table-struct-listed-first"}))
+        tail_kind = draw(st.integers(0, 9))
+        if static_msg and tail_kind in (3, 4):
+            # a trailing RESERVED parameter (also wider than the largest integer object): it is a described
+            # parameter, so a PDU must reach its end
+            bl = draw(st.sampled_from([8, 12, 16, 67, 72, 128]))
+            c["msg"]["params"].append({"pk": "reserved", "name": "rsv_tail", "pos": None, "bit": draw(st.sampled_from([0, 0, 3])),
+                                       "bl": bl})
+            c["features"] = sorted(set(c["features"]) | {"pk:reserved", "tail-reserved"} | ({"reserved:over-64-bits"} if bl > 64 else set()))
+        if static_msg and tail_kind < 3:
             # a trailing parameter whose compu method has a COMPU-DEFAULT-VALUE: a PDU that ends before or inside
             # it must be rejected, not completed with the default text
             bl = draw(st.sampled_from([8, 12, 16]))
